@@ -2,6 +2,8 @@
 import itertools
 import re
 
+import numpy as np
+
 import align1314 as A
 
 KINDS = ['good', 'junk', 'empty']
@@ -384,3 +386,92 @@ def run(ck):
             ck.violation(rp)
     ck.trusted += ['scenario engine harness/align1314.py: scripted matcher (source identities), counting corrector '
                    'subclass, mapping of exception messages to check stages, two-field construction of zero overlap']
+
+    extra_streams(ck)
+
+
+def extra_streams(ck):
+    """two streams evaluated with direct predicates only (outside the two-field world of the Coq model):
+    (1) three or four images in mutually DISJOINT sky fields without a reference catalog: exactly one whole group is
+        the REFERENCE, nothing is corrected, everything else FAILED;
+    (2) an invalid `sigma` argument: align_wcs raises and no input has been modified - also when the first group to be
+        aligned has exactly the minimum number of matched sources for the fit geometry."""
+    import gen_align as GA
+    from astropy.table import Table
+    T = A._tw()
+    rng = ck.rng
+    nprng = np.random.default_rng(rng.randrange(2 ** 31))
+    # (1)
+    for t in range(ck.n(16, 160)):
+        n = 3 + t % 2
+        cors = []
+        for k in range(n):
+            cen = (60.0 + 7.0 * k, -20.0 + 9.0 * k)
+            ra, dec = GA.separated_sources(nprng, 25, 0.004, 14e-5, center=cen)
+            wt = GA.mkwcs(crval=cen, rot=float(nprng.uniform(0, 360)))
+            x, y, _ = GA.observe(wt, ra, dec)
+            wg = GA.mkwcs(crval=(cen[0] + 1e-5, cen[1] - 1e-5), rot=float(nprng.uniform(0, 360)))
+            meta = {'catalog': Table([x, y], names=('x', 'y')), 'name': 'im%d' % k}
+            if t % 4 == 3 and k >= n - 2:
+                meta['group_id'] = 'g'
+            cors.append(T['Counting'](wg, meta=meta))
+        if t % 4 == 3:
+            # members of the group share a field
+            cors[-1] = T['Counting'](cors[-2].wcs.deepcopy(), meta={'catalog': cors[-2].meta['catalog'].copy(),
+                                                                   'name': 'im%d' % (n - 1), 'group_id': 'g'})
+        expand, enforce = bool(t % 2), bool((t // 2) % 2)
+        before = [A.sky(c) for c in cors]
+        ck.search_evaluations += 1
+        ck.count('stream', 'disjoint fields')
+        rp = {'stream': 'disjoint fields, refcat=None', 'n_images': n, 'expand_refcat': expand, 'enforce_user_order': enforce,
+              'group_of_last_two': t % 4 == 3,
+              'how': 'align_wcs(n FITS correctors in sky fields ~10 degrees apart, refcat=None, match=nearest-neighbour oracle)'}
+        try:
+            T['align_wcs'](cors, refcat=None, expand_refcat=expand, enforce_user_order=enforce, fitgeom='rscale',
+                           match=GA.oracle_matcher(3.0, seed=t))
+        except Exception as e:   # noqa: BLE001
+            rp.update(kind='align_wcs-raised-on-valid-input', exception=repr(e))
+            ck.violation(rp)
+            continue
+        st = [c.meta.get('fit_info', {}).get('status') for c in cors]
+        nref = sum(1 for v in st if v == 'REFERENCE')
+        groups_ref = nref == (2 if (t % 4 == 3 and st[-1] == 'REFERENCE') else 1)
+        okst = all(isinstance(v, str) and (v == 'REFERENCE' or v.startswith('FAILED')) for v in st)
+        untouched = all(c.ncorr == 0 for c in cors) and all(A.sky(c) == b0 for c, b0 in zip(cors, before))
+        ck.case(('disjoint', t), True)
+        if not (groups_ref and okst and untouched):
+            rp.update(kind='disjoint-fields-statuses', status=st, set_correction_calls=[c.ncorr for c in cors],
+                      predicate='exactly one whole group REFERENCE; every other input FAILED; no WCS changed')
+            ck.violation(rp)
+    # (2)
+    for t in range(ck.n(18, 180)):
+        geom = ['shift', 'rscale', 'general'][t % 3]
+        kmin = {'shift': 1, 'rscale': 2, 'general': 3}[geom]
+        bad_sigma = [(3.0, 'median'), (0.0, 'rmse'), (-2.0, 'mae'), (3.0, 'RMS')][(t // 3) % 4]
+        spec = {'wseed': t % 4, 'images': [
+            dict(kind='good', gid=None, far=False, slot=0, core_only=True, nrows=(kmin if t % 2 == 0 else None)),
+            dict(kind='good', gid=None, far=False, slot=1, keep=0.8, cseed=t)],
+            'ref': dict(mode='table', field='near', ids='none', core_only=True), 'expand': bool(t % 2), 'enforce': True,
+            'fitgeom': geom, 'minobj': None, 'match': 'scripted', 'nclip': 3}
+        B = A.build(spec)
+        cors = B['cors']
+        before = [A.sky(c) for c in cors]
+        matcher = T['Scripted'](B['key2sid'])
+        ck.search_evaluations += 1
+        ck.count('stream', 'invalid sigma')
+        exc = None
+        try:
+            T['align_wcs'](list(cors), refcat=B['refcat'], expand_refcat=spec['expand'], enforce_user_order=True,
+                           fitgeom=geom, minobj=None, nclip=3, sigma=bad_sigma, match=matcher)
+        except Exception as e:   # noqa: BLE001
+            exc = e
+        moved = [A.sky(c) != b0 for c, b0 in zip(cors, before)]
+        ck.case(('invalid-sigma', t), True)
+        if exc is None or any(moved) or any(c.ncorr for c in cors):
+            ck.violation({'kind': 'invalid-sigma-not-rejected-before-any-change', 'sigma': list(bad_sigma), 'fitgeom': geom,
+                          'first_image_matched_sources': kmin if t % 2 == 0 else 'all core sources',
+                          'exception': None if exc is None else repr(exc), 'inputs_modified': moved,
+                          'set_correction_calls': [c.ncorr for c in cors],
+                          'status': [c.meta.get('fit_info', {}).get('status') for c in cors],
+                          'predicate': 'align_wcs raises for an invalid sigma and no input WCS has been modified',
+                          'spec': spec})
